@@ -266,6 +266,26 @@ def every_received_busy_frame_reaches_flow_control(rt, kind, rb, raw):
     assert ghost("T") == want
 
 
+
+# ------------------------------------------------------------------ "the announced wait time" is the one on the wire
+# handle_routing_busy takes a parsed RoutingBusy (BUSY above); the parser owes the fields of the frame.
+
+from xknx.exceptions import CouldNotParseKNXIP as _CouldNotParseKNXIP  # noqa: E402
+
+
+@lemma("C27", params=dict(raw=Bytes(max_len=12)))
+def a_parsed_busy_frame_carries_the_wait_time_of_its_octets(raw):
+    """RoutingBusy.from_knx, any octets: refused (C20) unless it is the 6-octet body (structure length 6),
+    and then device state, wait time (octets 2-3, big endian, milliseconds) and control field (octets 4-5) are
+    exactly those of the frame."""
+    rb = RoutingBusy()
+    try:
+        rb.from_knx(raw)
+    except (_CouldNotParseKNXIP, IndexError):  # IndexError of a body parser becomes CouldNotParseKNXIP at the frame level (C20)
+        return
+    assert len(raw) == 6
+    assert rb.device_state == raw[1] and rb.wait_time == raw[2] * 256 + raw[3] and rb.control_field == raw[4] * 256 + raw[5]
+
 ASSUMPTIONS = [
     "time is not modelled: asyncio.sleep(d) takes at least d; loop.time() readings are reals and do not decrease; 'no indication until the wait time has elapsed' is derived: the ready flag is cleared by every busy frame, set only by the timer after its first sleep, and awaited by every send",
     "asyncio.Event / Lock / create_task / cancellation behave as their contract classes say (a cancelled timer does not continue; the lock is mutually exclusive)",
